@@ -215,7 +215,9 @@ def _index(s: ast.AST, ev):
         return Ellipsis
     v = ev(s)
     if _is_arr(v):
-        return v
+        if v.dtype == bool:
+            return v
+        return np.vectorize(lambda z: int(z), otypes=[int])(v) if v.size else v.astype(int)  # an index tensor
     return _int(v)
 
 
@@ -284,6 +286,8 @@ def _call(c: ast.Call, ev, t: str):
         return np.where(cond, _as_exact(a), _as_exact(b))
     if name in ("torch.zeros_like", "torch.ones_like") and c.args:
         x = ev(c.args[0])
+        if _is_arr(x) and x.dtype == bool:
+            return np.zeros(x.shape, dtype=bool) if name.endswith("zeros_like") else np.ones(x.shape, dtype=bool)
         return frac_array(np.zeros(x.shape, dtype=int) if name.endswith("zeros_like") else np.ones(x.shape, dtype=int))
     if name == "torch.full_like" and len(c.args) >= 2:
         x, v = ev(c.args[0]), ev(c.args[1])
@@ -443,6 +447,9 @@ def _call(c: ast.Call, ev, t: str):
         out = np.array(_as_exact(x), dtype=object, copy=True)
         out[mb] = flat[: int(mb.sum())]
         return out
+    if m == "nonzero" and not c.args and not c.keywords:
+        b_ = x if x.dtype == bool else (_as_exact(x) != 0)
+        return frac_array(np.argwhere(b_).tolist()) if b_.any() else np.empty((0, x.ndim), dtype=object)
     if m == "gather" and len(c.args) == 2 and not c.keywords:
         d = _axis(_int(ev(c.args[0])), x.ndim)
         idx = ev(c.args[1])
